@@ -386,6 +386,10 @@ impl Run<'_> {
         let mut echo_rollbacks = 0;
         let mut echo_after_forwards = false;
         let mut forwards_in_scan = 0;
+        let mut actions_in_scan = 0;
+        let mut below_first = false;
+        // lowest slot among the blocks stored before this import or rolled forward (up to the target) during it
+        let mut lowest_slot: Option<u64> = pre.min_block().map(|b| b.1);
         let mut real_rollbacks: Vec<(u64, u64)> = vec![]; // (height, slot)
         let mut scan_lpps: Vec<(Option<(u64, String)>, bool)> = vec![]; // per scan: streamer's last polled point, timed out
         let mut intersect_not_found = false;
@@ -411,6 +415,7 @@ impl Run<'_> {
                     }
                     from_slot = *slot;
                     forwards_in_scan = 0;
+                    actions_in_scan = 0;
                     scan_lpps.push((None, false));
                     if !found && !not_sent {
                         intersect_not_found = true;
@@ -421,19 +426,28 @@ impl Run<'_> {
                 }
                 Served::Forward(b) => {
                     forwards_in_scan += 1;
-                    if b.number <= t
-                        && let Some(l) = scan_lpps.last_mut()
-                    {
-                        l.0 = Some((b.slot(), b.hash_hex()));
+                    actions_in_scan += 1;
+                    if b.number <= t {
+                        lowest_slot = Some(lowest_slot.map_or(b.slot(), |l: u64| l.min(b.slot())));
+                        if let Some(l) = scan_lpps.last_mut() {
+                            l.0 = Some((b.slot(), b.hash_hex()));
+                        }
                     }
                 }
                 Served::Backward { height, slot } => {
-                    if *slot == from_slot {
+                    // only the first answer of a scan can be the acknowledgement of the intersection
+                    let acknowledgement = *slot == from_slot && actions_in_scan == 0;
+                    actions_in_scan += 1;
+                    if acknowledgement {
                         echo_rollbacks += 1;
-                        if forwards_in_scan > 0 {
+                    } else {
+                        if *slot == from_slot && forwards_in_scan > 0 {
                             echo_after_forwards = true;
                         }
-                    } else {
+                        // the roll-back point is Origin or lies before every block the store holds or was just given
+                        if lowest_slot.is_some_and(|l| *slot < l) {
+                            below_first = true;
+                        }
                         real_rollbacks.push((*height, *slot));
                         let hash = if *height == 0 { String::new() } else { chain[*height as usize - 1].hash_hex() };
                         if let Some(l) = scan_lpps.last_mut() {
@@ -520,7 +534,6 @@ impl Run<'_> {
         .collect();
         if !diffs.is_empty() {
             let first_stored = pre.min_block().map(|b| (b.0, b.1));
-            let below_first = real_rollbacks.iter().any(|(_, slot)| first_stored.is_some_and(|f| *slot < f.1));
             // the node switched to a fork below the target and the importer has not talked to it since
             let undelivered_fork = scans == 0 && self.undelivered_fork_floor.is_some_and(|f| f < t);
             let only_roots_differ = node_part.blocks == expected.blocks && node_part.txs == expected.txs;
